@@ -199,7 +199,11 @@ Apply(m, RR) ==
 (* Behaviour: choose a seed, then extend the history command by command.    *)
 (***************************************************************************)
 Depth == IF Mode \in {"single", "clock"} THEN 1 ELSE IF Mode = "pairs" THEN 2 ELSE IF Mode = "long" THEN 12 ELSE 3
-Pool(k) == IF Mode = "single" THEN AllCmds ELSE IF Mode = "clock" THEN ClockCmds ELSE HistCmds
+CmdHash(c) == Len(c.op) + 3 * Len(c.summary) + Len(c.time) + (IF c.resume THEN 5 ELSE 0) + 7 * Len(c.entry)
+              + Len(c.ticks) + Len(c.date) + Len(c.should) + (IF c.extend THEN 1 ELSE 0)
+Pool(k) == IF Mode = "single" THEN AllCmds ELSE IF Mode = "clock" THEN ClockCmds
+           ELSE IF Mode = "triples" /\ ~Full /\ k > 0 THEN {c \in HistCmds : (CmdHash(c) + SeedN + k) % 2 = 0}
+           ELSE HistCmds
 SeedSet == IF Mode = "single" THEN 1..NSeeds
            ELSE IF Mode = "clock" THEN {10 * lay + d : lay \in 0..5, d \in 0..4}
            ELSE IF Mode = "pairs" THEN {3, 4, 5, 7, 10, 17, 22}
